@@ -197,6 +197,11 @@ def statements(vt, twokey):
         for n, e in aggs:
             s = build([(e, n)], None)
             out.append((f'{sname}|{n}|none|none', s))
+        # grouping WITHOUT any aggregate (one row per group, hidden keys included)
+        s0 = build([], None)
+        if s0 is not None and s0.group_by is not None and s0.targets:
+            out.append((f'{sname}|noagg|none|none', s0))
+            out.append((f'{sname}|noagg-distinct|none|none', A.Select(s0.targets, s0.from_clause, None, s0.group_by, None, None, None, True)))
         # LIMIT without ORDER BY on a grouped query: it cuts the groups that PASS the HAVING filter, in order of first appearance
         if sname in ('explicit', 'hidden', 'km'):
             for hn, h in having_menu(vt):
